@@ -24,6 +24,7 @@ class TaskScenario(ScenarioData):
         self.doneLength: int = 0
         self.doneEffort: float = 0.0
         self.slotStartOffset: float = 0.0
+        self.backwardBound: Optional[datetime] = None  # deadline derived for a backward-scheduled task
         self._selectedResources: Optional[list[Any]] = None
         self._lastBookedResource: Optional[Any] = None
         self._lastBookedSlot: Optional[int] = None
@@ -94,6 +95,7 @@ class TaskScenario(ScenarioData):
         # Track exact start time within a slot (for mid-slot dependency starts)
         # This is the number of seconds into the slot where we should start booking
         self.slotStartOffset = 0.0
+        self.backwardBound = None
 
         # Reset the counters of all limits of this task (not parent tasks).
         # This is critical - limits track usage per period and must be reset
@@ -619,6 +621,7 @@ class TaskScenario(ScenarioData):
                                 latest_end = succ_start
 
                     end_date = latest_end
+                    self.backwardBound = latest_end
 
                 if end_date:
                     # For ALAP, start from the last working slot BEFORE the end date
@@ -778,8 +781,10 @@ class TaskScenario(ScenarioData):
                 if end_date:
                     self.property[("start", self.scenarioIdx)] = end_date
                 else:
+                    # No end date - the milestone sits at its bound (earliest successor start minus
+                    # gap, or the project end), not at the start of the last slot before it
                     slot_idx = self.currentSlotIdx if self.currentSlotIdx is not None else 0
-                    date = self.project.idxToDate(slot_idx)
+                    date = self.backwardBound or self.project.idxToDate(slot_idx)
                     self.property[("start", self.scenarioIdx)] = date
                     self.property[("end", self.scenarioIdx)] = date
             return False
